@@ -26,6 +26,7 @@ def add(rep, prefix='C04.iter_func_args'):
     PF, K = z3.Ints('n_posonly_or_flex n_kwonly'); vpB, vkB = z3.Bools('has_var_pos has_var_kw')
     vp, vk = z3.If(vpB, 1, 0), z3.If(vkB, 1, 0)
     NONE = C(None); MAND = C(mod.ArgMandatory)
+    isbm = z3.Bool('is_bound_method'); om = z3.If(isbm, 1, 0)
     d = z3.If(D0 == NONE, 0, M.len_(D0))
     PO, PK, VP, KO, VK = (C(getattr(mod.ArgKind, n)) for n in ('POSITIONAL_ONLY', 'POSITIONAL_OR_KEYWORD', 'VARIADIC_POSITIONAL', 'KEYWORD_ONLY', 'VARIADIC_KEYWORD'))
     def kd_get(name): return z3.If(z3.And(KD0 != NONE, M.mem(KD0, name)), M.mget(KD0, name), MAND)
@@ -37,17 +38,18 @@ def add(rep, prefix='C04.iter_func_args'):
     pre = [0 <= P, P <= PF, 0 <= K, M.inst(N, C(tuple)), M.len_(N) >= PF + K + vp + vk,
            z3.Or(D0 == NONE, z3.And(M.inst(D0, C(tuple)), M.len_(D0) > 0)), d <= PF,                        # __defaults__ is None or a non-empty tuple no longer than the positional block
            z3.Or(KD0 == NONE, z3.And(M.inst(KD0, C(dict)), M.len_(KD0) > 0)),                                 # __kwdefaults__ is None or a non-empty dict
-           M.box_int(P) == z3.Select(F('co_posonlyargcount'), CO)]
+           M.box_int(P) == z3.Select(F('co_posonlyargcount'), CO),
+           z3.Implies(isbm, z3.And(PF >= 1, PF - d >= 1))]      # a bound method has a first positional parameter (self) without default
     def m_lens(ex, s, f, a, kw, w): return [(s, VTup((VInt(PF), VInt(K), VBool(vpB), VBool(vkB))))]
     def m_same(ex, s, f, a, kw, w): return [(s, a[0] if a else dict(kw)['func'])]
     def m_co(ex, s, f, a, kw, w): return [(s, VObj(CO))]
-    def m_false(ex, s, f, a, kw, w): return [(s, VBool(z3.BoolVal(False)))]
+    def m_false(ex, s, f, a, kw, w): return [(s, VBool(isbm))]
     cm = {mod.get_func_args_lens: m_lens, wmod.unwrap_func_all_isomorphic: m_same, comod.get_func_codeobject: m_co, tmod.is_func_boundmethod: m_false}
     scope = dict(mod.__dict__); scope.update(get_func_codeobject=comod.get_func_codeobject, is_func_boundmethod=tmod.is_func_boundmethod, unwrap_func_all_isomorphic=wmod.unwrap_func_all_isomorphic)
     ex = Exec(uni, scope, call_model=cm, name='iter_func_args'); ex.fields_mode = True; ex.method_names = {'get'}
     ex.set_target(node)
     def mk_inv(shift):
-        def inv(ex_, i, env, B, s): return ex_.as_int(env['__nyield']) == i + shift
+        def inv(ex_, i, env, B, s): return z3.And(ex_.as_int(env['__nyield']) == i + shift - om, i >= om)
         return inv
     nloops = len(ex.loop_index)
     if nloops != 5: raise symx.Unsupported(f'iter_func_args has {nloops} loops; the sidecar invariants are written for the 5 loops of the reviewed text')
@@ -59,11 +61,11 @@ def add(rep, prefix='C04.iter_func_args'):
         nyields[0] += 1; m = ex_.as_int(idx)
         if not (isinstance(v, VTup) and len(v.items) == 3):
             ex_.obl(s, 'yield.shape', z3.BoolVal(False), f'yield of {v}'); return
-        k_, n_, d_ = spec(m)
+        k_, n_, d_ = spec(m + om)          # the first parameter (self) of a bound method is omitted: the caller never passes it
         ex_.obl(s, 'yield.kind', ex_.obj(v.items[0]) == k_, 'the m-th yielded parameter has the kind of the m-th declared parameter')
         ex_.obl(s, 'yield.name', ex_.obj(v.items[1]) == n_, 'the m-th yielded parameter has the name of the m-th declared parameter')
         ex_.obl(s, 'yield.default', ex_.obj(v.items[2]) == d_, 'the m-th yielded parameter carries its own default (or the mandatory marker)')
-        ex_.obl(s, 'yield.in_range', z3.And(0 <= m, m < PF + vp + K + vk), 'no parameter is yielded beyond the declared ones')
+        ex_.obl(s, 'yield.in_range', z3.And(0 <= m, m < PF + vp + K + vk - om), 'no parameter is yielded beyond the declared ones')
     ex.on_yield = on_yield
     body = [st for st in node.body if not isinstance(st, ast.Assert) and not (isinstance(st, ast.Expr) and isinstance(st.value, ast.Constant))]
     env = {'func': VObj(FUNC), 'func_codeobj': VPy(None), 'is_omit_boundmethod_arg_first': VPy(True), 'is_unwrap': VPy(True),
@@ -78,15 +80,15 @@ def add(rep, prefix='C04.iter_func_args'):
         if kind not in ('next', 'return'):
             rep.add(f'{prefix}.post.completion.path{i}', 'refuted', backend='structural', where=f'path ends with {kind} {v}'); continue
         n += 1
-        r = pr.prove(list(s.pc), ex.as_int(s.get('__nyield')) == PF + vp + K + vk)
+        r = pr.prove(list(s.pc), ex.as_int(s.get('__nyield')) == PF + vp + K + vk - om)
         rep.add(f'{prefix}.post.count.path{i}', r.status, time=r.time, backend=r.backend, reason=r.reason, where='exactly one triple per declared parameter')
         cz = pr.prove(list(s.pc), z3.BoolVal(False))
         if cz.status != 'proved': feasible += 1
     # vacuity guard: completing paths exist and are satisfiable (infeasible combinations that the cheap pruner left in are harmless)
     rep.add(f'{prefix}.canary.feasible_paths', 'proved' if feasible >= 8 else 'refuted', backend='structural', where=f'{feasible} of {n} completing paths have a satisfiable path condition')
     if not n or not nyields[0]: rep.error(f'{prefix}: no completing path / no yield seen')
-    rep.functions.append('beartype/_util/func/arg/utilfuncargiter.py:iter_func_args (mode F: 5 loop invariants, ghost yield sequence; leading asserts dropped; bound-method omission not covered)')
-    rep.assumptions += ['iter_func_args: CPython code-object layout (co_varnames order, __defaults__ aligned to the end of the positional block, __kwdefaults__ by name) is the SPEC; get_func_args_lens / get_func_codeobject / unwrap_func_all_isomorphic are callee contracts; the callable is not a bound method']
+    rep.functions.append('beartype/_util/func/arg/utilfuncargiter.py:iter_func_args (mode F: 5 loop invariants, ghost yield sequence; leading asserts dropped; bound methods: the first parameter is omitted)')
+    rep.assumptions += ['iter_func_args: CPython code-object layout (co_varnames order, __defaults__ aligned to the end of the positional block, __kwdefaults__ by name) is the SPEC; get_func_args_lens / get_func_codeobject / unwrap_func_all_isomorphic are callee contracts; is_func_boundmethod is an abstract predicate']
 
 
 def safe(rep):
